@@ -53,6 +53,9 @@ inductive Outcome where
   | failCtx         -- (false, err), text ends in ContextURLNotAllowedErr
   | fatal           -- (false, EventFatal{err})
   | crash           -- the node stops inside the receiver
+  | readFault       -- notifyNow cannot read the job (transient store fault): the receiver is NOT called; retry.Unrecoverable
+  | notDoneWriteFail -- (false, nil) and the write-back of the failure count fails: retry.Unrecoverable(storage error)
+  | failWriteFail   -- (false, err) and the write-back fails: retry.Unrecoverable(storage error)
   deriving DecidableEq, Repr, Inhabited
 
 /-- one selection filter as written in the source: a conjunction of the three tests that occur -/
@@ -130,6 +133,7 @@ inductive NRes where
   | err      -- recoverable error (retry continues)
   | fatal    -- retry.Unrecoverable(EventFatal)
   | crashed
+  | unrec    -- retry.Unrecoverable(storage error of the notifier itself): NOT an EventFatal
   deriving DecidableEq, Repr
 
 def log (σ : St) (e : Entry) : St := { σ with ledger := e :: σ.ledger }
@@ -153,6 +157,10 @@ def notifyNow (c : Cfg) (σ : St) (s r : Nat) : St × NRes :=
     | .fail => (setJob σ1 s r (some { j with retries := j.retries + 1, err := .generic }), .err)
     | .failCtx => (setJob σ1 s r (some { j with retries := j.retries + 1, err := .ctx }), .err)
     | .fatal => (setJob σ1 s r (some { j with retries := c.maxRetries + 1, err := .fatal }), .fatal)
+    -- the notifier's own storage errors: nothing is recorded on the shelf; the ledger entry is the attempt
+    | .readFault => (σ1, .unrec)
+    | .notDoneWriteFail => (σ1, .unrec)
+    | .failWriteFail => (σ1, .unrec)
 
 /-- notifier.retry: `attempts := maxRetries - uint(event.Retries+1)`; returns when `attempts <= 0 || attempts >= maxRetries`
     (unsigned wrap-around makes the second test catch `Retries+1 > maxRetries`) -/
@@ -171,6 +179,8 @@ def notify (c : Cfg) (σ : St) (s : Nat) (ev : Nat × EvType) : St × Bool :=
     | (σ', .nil) => (σ', false)
     | (σ', .fatal) => (σ', false)
     | (σ', .err) => (spawn c σ' s ev.1 0, false)
+    -- only an EventFatal means "dropped": the notifier's own unrecoverable (storage) errors are rescheduled as well
+    | (σ', .unrec) => (spawn c σ' s ev.1 0, false)
     | (σ', .crashed) => (σ', true)
   else (σ, false)
 
@@ -319,6 +329,7 @@ def fire (c : Cfg) (σ : St) (s r : Nat) : St :=
     | (σ', .crashed) => crashSt σ'
     | (σ', .nil) => σ'
     | (σ', .fatal) => σ'
+    | (σ', .unrec) => σ'   -- retry-go stops the loop on any Unrecoverable error
     | (σ', .err) =>
       if t.left ≤ 1 then σ'
       else { σ' with running := σ'.running ++ [{ t with left := t.left - 1, n := t.n + 1 }] }
